@@ -92,5 +92,8 @@ def reload(fs, prefixes):
     if not p.parse(text):
         return None, "rendered script rejected by the parser: %s" % p.error
     fs2 = sfactory.FiltersSet("reloaded", *prefixes) if prefixes else sfactory.FiltersSet("reloaded")
-    fs2.from_parser_result(p)
+    try:
+        fs2.from_parser_result(p)
+    except Exception as e:  # noqa
+        return None, "from_parser_result raised %s: %s" % (type(e).__name__, str(e)[:80])
     return fs2, None
